@@ -273,6 +273,10 @@ func (d *Device) handleABSEvent(ie *input.InputEvent) {
 				d.AnalogNoteOn(identifier, analog.Note, analog.ChannelOffset, ie)
 			}
 			d.AnalogNoteOff(identifierNeg, ie)
+		case value <= -0.49: // hysteresis band of the negative direction: the positive one is far from its threshold
+			d.AnalogNoteOff(identifier, ie)
+		case value >= 0.49: // hysteresis band of the positive direction
+			d.AnalogNoteOff(identifierNeg, ie)
 		}
 	case config.AnalogActionSim:
 		if d.checkDoubleActions() {
